@@ -74,9 +74,16 @@ class VariableDefinition:
     def execute(
         self, interp: Interpreter, parent_context: RuntimeContext, continuing: bool
     ) -> Optional[dict]:
-        with parent_context.child_context(self) as context:
-            name = self.varname
-            value = self.evaluate(context)
+        try:
+            with parent_context.child_context(self) as context:
+                name = self.varname
+                value = self.evaluate(context)
+        except DataGenError:
+            raise
+        except Exception as e:
+            raise fix_exception(
+                "Cannot evaluate variable `{}`:\n {e}", self, e, [self.varname]
+            ) from e
         interp.register_variable(name, value)
 
 
